@@ -87,7 +87,7 @@ pub fn runs_for(check: &str, tier: Tier) -> u64 {
         "C15" => if q { 24_000 } else { 240_000 },
         "C13" => if q { 12_000 } else { 100_000 },
         "C06" => if q { 160 } else { 1_200 },
-        "C08" => if q { 192 + C08_PIPELINES_QUICK } else { 1_600 + C08_PIPELINES_THOROUGH },
+        "C08" => if q { 192 + C08_PIPELINES_QUICK } else { 600 + C08_PIPELINES_THOROUGH },
         "C03" => if q { 100_000 } else { 1_200_000 },
         "C04" => if q { 80_000 } else { 600_000 },
         "C09" => if q { 8_000 } else { 64_000 },
@@ -101,7 +101,7 @@ pub fn runs_for(check: &str, tier: Tier) -> u64 {
 
 /// C08: run indices beyond the grid worlds are pipeline runs with an inspection over the delivered product
 pub const C08_PIPELINES_QUICK: u64 = 1_024;
-pub const C08_PIPELINES_THOROUGH: u64 = 10_000;
+pub const C08_PIPELINES_THOROUGH: u64 = 4_000;
 
 pub fn level_of(check: &str) -> &'static str {
     match check {
